@@ -115,6 +115,12 @@ def _placement(fn, scaled):
         return None, "loops are not `for position, element in enumerate(support_elements)` / `for k in range(3)`", {}
     I, K = lE.target.elts[0].id, lK.target.id
     cnt = [s for s in S if s.op == "Add=" and isinstance(s.tnode, ast.Name) and s.loops == (lE, lK) and not s.guards]
+    if not cnt:
+        dec = [s for s in S if s.op in ("Sub=", "Mult=") and isinstance(s.tnode, ast.Name) and s.loops == (lE, lK) and not s.guards]
+        if len(dec) == 1:
+            return False, "the running position `%s` is updated with %s instead of advancing by 18 per (element, coarse dof): the blocks of values overwrite each other or are written before the start" % (dec[0].target, dec[0].op), {}
+    if len(cnt) == 1 and isinstance(cnt[0].vnode, ast.Constant) and isinstance(cnt[0].vnode.value, int) and cnt[0].vnode.value != 18:
+        return False, "the running position advances by %d per (element, coarse dof), the block written there has 18 entries" % cnt[0].vnode.value, {}
     if len(cnt) != 1 or not (isinstance(cnt[0].vnode, ast.Constant) and cnt[0].vnode.value == 18):
         return None, "no single running counter advanced by 18 per (element, coarse dof)", {}
     N = cnt[0].target
